@@ -25,6 +25,7 @@ typedef struct ri_ctx {
   ri_status status; char why[200];
   int ovf_s, ovf_u, ovf_valid; /* overflow flags: written only by the eight overflow insns */
   uint64_t steps;
+  uint64_t misaligned;      /* memory accesses whose address is not a multiple of the natural alignment of the operand type (defined by the engines on x86-64; undefined in a C translation) */
 } ri_ctx;
 
 void ri_init (ri_ctx *ri, MIR_context_t ctx, const ri_ext *exts, int n_exts, uint64_t fuel);
